@@ -27,7 +27,7 @@ std::string bytesOf(const NifFile& m) {
 
 std::string applyEdit(NifFile& x, Tape& t, bool& geometryEdit) {
 	auto shapes = x.GetShapes();
-	uint8_t op = t.u8() % 14;
+	uint8_t op = t.u8() % 15;
 	NiShape* s = shapes.empty() ? nullptr : shapes[t.u8() % shapes.size()];
 	switch (op) {
 		case 0: {
@@ -103,6 +103,20 @@ std::string applyEdit(NifFile& x, Tape& t, bool& geometryEdit) {
 			x.SetTextureSlot(s, tex, 0);
 			return "Rename+SetTextureSlot";
 		}
+		case 14: { // overwrite every field of one block in place (incl. nested objects the block owns)
+			auto& hdr = x.GetHeader();
+			uint32_t nb = hdr.GetNumBlocks();
+			if (nb == 0)
+				return "noop";
+			auto b = hdr.GetBlock<NiObject>(t.u16() % nb);
+			// geometry data and skin blocks are reached through cached pointers / sized by other blocks: left alone
+			if (!b || b->HasType<NiGeometryData>() || b->HasType<NiShape>() || b->HasType<NiSkinData>() || b->HasType<NiSkinPartition>() || b->HasType<NiBoneContainer>())
+				return "noop";
+			std::string ty = b->GetBlockName();
+			if (!resynthInPlace(*b, hdr, t))
+				return "noop";
+			return "re-read " + ty + " in place";
+		}
 		case 12: { // through the shape object itself (its cached data pointer), not through the model
 			if (!s)
 				return "noop";
@@ -145,14 +159,47 @@ std::string applyEdit(NifFile& x, Tape& t, bool& geometryEdit) {
 Verdict prop(Tape& t, Run& run) {
 	auto src = std::make_unique<NifFile>();
 	std::string desc, version;
-	uint8_t from = t.u8() % 5;
-	std::string srcBytes; // the file the source was loaded from (file sources)
+	uint8_t from = t.u8() % 6;
+	std::string srcBytes;
+	uint8_t deepEditPattern = 0; // from == 5: the one edit is an in-place re-read of the subject block
+	uint8_t deepBase = 0;
+	int deepK = -1;
+	uint64_t deepV = 0; // the file the source was loaded from (file sources)
 	if (from == 0) {
 		static const size_t vers[] = {4, 5, 6, 7, 8, 11};
 		size_t vi = vers[t.u8() % 6];
 		GraphInfo gi = buildGraph(*src, t, vi);
 		desc = "graph: " + gi.str();
 		version = versions()[vi].name;
+	}
+	else if (from == 5) {
+		// deep-copy independence of every block type: a single synthesised subject (constant-byte body,
+		// optionally one forced integer-like read as in the sweep of cases.hpp), copied, and then every field
+		// of the subject overwritten in place on one side
+		auto& types = registeredTypes();
+		size_t ti = t.u16() % types.size();
+		size_t vi = t.u8() % versions().size();
+		uint8_t k = t.u8(), v = t.u8(), base = t.u8();
+		deepEditPattern = t.u8() | 1;
+		std::vector<uint8_t> body(base ? 600 : 0, base);
+		Tape bt(body);
+		if (k < kSweepMaxReads) {
+			force().read = k;
+			force().value = v % kSweepMaxValue;
+			deepK = k;
+			deepV = v % kSweepMaxValue;
+		}
+		deepBase = base;
+		SynthFile sf = synthSingleFile(types[ti], vi, bt);
+		force() = Force();
+		if (!sf.ok || loadBytes(*src, sf.bytes) != 0) {
+			run.exclude("start file not usable");
+			return OK;
+		}
+		srcBytes = sf.bytes;
+		desc = "synth1:" + types[ti] + (k < kSweepMaxReads ? " (read #" + std::to_string(k) + " = " + std::to_string(v % kSweepMaxValue) + ")" : "");
+		version = versions()[vi].name;
+		run.cls("source:every-type-deep-edit");
 	}
 	else if (from == 4) {
 		// a newer-version file (SSE / FO4 / FO76) that still carries NiTriShape shapes with separate data
@@ -288,7 +335,19 @@ Verdict prop(Tape& t, Run& run) {
 	std::string edits;
 	bool geomEdit = false;
 	for (uint32_t i = 0; i < nEdits; i++) {
-		std::string e = applyEdit(X, t, geomEdit);
+		std::string e;
+		if (from == 5 && i == 0) {
+			auto b = X.GetHeader().GetBlock<NiObject>(1u);
+			// same structure as the source (same body and forced read), other leaf values - or, for odd
+			// pattern bytes above 0x80, another structure altogether
+			const bool sameStructure = deepEditPattern < 0x80;
+			std::vector<uint8_t> pat(sameStructure ? (deepBase ? 600 : 0) : 600, sameStructure ? deepBase : deepEditPattern);
+			Tape pt(pat);
+			bool ok = b && (sameStructure ? resynthInPlace(*b, X.GetHeader(), pt, deepK, deepV, 1.5f) : resynthInPlace(*b, X.GetHeader(), pt));
+			e = ok ? std::string("re-read ") + b->GetBlockName() + (sameStructure ? " in place (same structure, other values)" : " in place (other structure)") : std::string("noop");
+		}
+		else
+			e = applyEdit(X, t, geomEdit);
 		edits += e + "; ";
 		run.cls("edit:" + e);
 		std::string by = bytesOf(Y);
@@ -303,7 +362,7 @@ Verdict prop(Tape& t, Run& run) {
 	for (auto s : Y.GetShapes())
 		if (s->HasType<NiGeometry>())
 			hasNiGeometry = true;
-	if (hasNiGeometry && geomEdit)
+	if ((hasNiGeometry && geomEdit) || from == 5)
 		run.nontriv(fnv1a(std::string(reinterpret_cast<const char*>(run.curTape), run.curTapeLen)));
 	if (run.wantSample())
 		run.sample(J().s("model", desc).s("version", version).s("copy", howName).s("edited_side", editCopy ? "copy" : "source").s("edits", edits).u("shapes", nGeom).str());
@@ -341,6 +400,28 @@ void deterministic(Run& run, const std::function<void(const std::vector<uint8_t>
 			for (uint8_t edit = 0; edit < 12; edit++)
 				for (uint8_t side = 0; side < 2; side++)
 					feed({1, 1, static_cast<uint8_t>(i), how, side, 0 /*one edit*/, edit, 0, 0, 0, 0});
+	// every registered type x {OB, SSE} x two bodies, and every sweep tape that reaches a new read site:
+	// copy, overwrite the subject in place on one side, compare the other
+	{
+		auto& types = registeredTypes();
+		uint32_t n5 = 0;
+		for (size_t ti = 0; ti < types.size(); ti++)
+			for (uint8_t vi : {4, 7})
+				for (uint8_t base : {0x61, 0xA1}) {
+					uint8_t how = static_cast<uint8_t>(n5 % 3), side = static_cast<uint8_t>((n5 / 3) % 2);
+					n5++;
+					feed({5, static_cast<uint8_t>(ti & 255), static_cast<uint8_t>(ti >> 8), vi, 0xFF, 0, base, static_cast<uint8_t>((n5 & 1) ? 0xC9 : 0x01), how, side, 0, 0});
+				}
+		uint64_t tried = 0, novel = 0;
+		run.feedAll = true;
+		sweepCells(run.args.shard, run.args.nshards, 8, 24, 3, [&](const std::vector<uint8_t>& s) {
+			// s = [0xF0, ti lo, ti hi, vi, k, v, body...] with a constant body byte
+			uint8_t base = s.size() > 6 ? s[6] : 0;
+			feed({5, s[1], s[2], s[3], s[4], s[5], base, 0x01, static_cast<uint8_t>(novel % 3), static_cast<uint8_t>(novel % 2), 0, 0});
+		}, tried, novel);
+		run.feedAll = false;
+		run.cls("sweep:tapes-reaching-new-read-sites", novel);
+	}
 	// legacy geometry in newer versions x copy kind x shape-level edits x side
 	for (uint8_t v = 0; v < 3; v++)
 		for (uint8_t how = 0; how < 3; how++)
